@@ -170,6 +170,8 @@ func runC03(args []string) {
 		limit := c03Limit(ds, k, frac)
 		prm := parameters.Map{catchLimitKeys[k]: limit}
 		var trace []J
+		var csteps []J
+		var cstart []int
 		var runErr string
 		attempts := 0
 		for attempts < 12 { // D14(b): the attempt-limit panic strikes randomly; it is an outcome, try again
@@ -219,10 +221,36 @@ func runC03(args []string) {
 							return nil
 						}
 						record(c, getArch())
+						csteps = csteps[:0]
+						cstart = c03Bits(c)
+						sortedVars := []int{2, 4, 5, 1, 0, 3} // catchVarNames indices in sorted-name order
 						for it := 0; it < iters/4; it++ {
 							ex.TryRandomChange()
 							ex.CoolDown()
 							record(c, getArch())
+							// what the composed model (Compose.v) needs to replay this iteration
+							_, pot := ex.VerifC05Models()
+							cand := make([]int, 0)
+							for _, a := range pot.ManagementActions() {
+								if a.IsActive() {
+									cand = append(cand, 1)
+								} else {
+									cand = append(cand, 0)
+								}
+							}
+							_, accepted, _ := ex.VerifC06Flags()
+							current, lastReturned := ex.VerifC06Iteration()
+							ordered := make([]J, 0)
+							for _, a := range ex.VerifC05Archive().Archive() {
+								new(archive.ModelCompressor).Decompress(a, scratch.m)
+								vals := make([]int64, 6)
+								for vi, k2 := range sortedVars {
+									vals[vi] = scratch.grid(scratch.perUnit(catchVarNames[k2]).Value(), catchVarScale[k2])
+								}
+								ordered = append(ordered, J{"bits": c03Bits(scratch), "vals": vals})
+							}
+							csteps = append(csteps, J{"cand": cand, "accepted": accepted, "rtb": lastReturned == current-1 && current > 1,
+								"cur": c03Bits(c), "arch": ordered})
 						}
 					}
 				})
@@ -269,6 +297,10 @@ func runC03(args []string) {
 			}
 		}
 		emit(J{"kind": "case", "sub": "run", "family": family, "limit": J{"var": k, "max": flOf(limit)}, "trace": trace})
+		if family == "suppapitnarm" {
+			emit(J{"kind": "case", "sub": "crun", "limit": J{"var": k, "max": flOf(limit)}, "start": cstart, "steps": append([]J{}, csteps...)})
+			stats["composed_steps"] += len(csteps)
+		}
 	}
 	stats["oracle_failures"] = fails
 	emit(J{"kind": "stat", "stats": stats})
